@@ -1,57 +1,93 @@
 """C43 -- brick-generated implicit Jacobians are exact.
 Engine G+S: brick configurations (props/C43/mfront) are turned into C++ by the mfront of /repo's working tree; the generated
 class is instantiated with symv::Sym, computeThermodynamicForces(); computeFdF(false) is traced at symbolic unknowns on the
-plastic-loading path, and Coq proves jacobian(i,j) = d fzeros(i)/d zeros(j) entry by entry (auto_derive; field).
+plastic-loading path, and Coq proves jacobian(i,j) = d fzeros(i)/d zeros(j) entry by entry (auto_derive; field), for every
+entry of every configuration listed in BRICKS with a proof file.
 The double instantiation is compared with the trace (agreement) and its analytical jacobian with centred differences of
-its fzeros (failing-input search; the only check for the configurations / rows that are not proved)."""
-import os, sys
+its fzeros (failing-input search; the only check for the Mohr-Coulomb configuration, whose states cover the rounded corners)."""
+import os, re, sys, time
 C41 = os.path.join(os.path.dirname(os.path.abspath(__file__)), "..", "C41")
 sys.path.insert(0, os.path.abspath(C41))
 from vlib import guarded_main
 import gbeh
 
 HERE = os.path.dirname(os.path.abspath(__file__))
-# name -> (tag, tensor state variables other than eel, scalar state variables, proved in Coq?)
+# name -> tag, tensor state variables other than eel, scalar state variables, hypotheses (quick, thorough),
+#         Coq proof files (quick tier: 3-component tensors), Coq proof files added by the thorough tier (Tridimensional), options
 BRICKS = {
-    "C43NortonMisesLinear": ("bnml", [], ["p"], True),
-    "C43PlasticMisesLinearPrager": ("bplp", ["khr_a_0"], ["p"], False),
+    # pre: definitions compiled with the generated module; proofs: files checked concurrently (phase 1); post: files compiled in
+    # order after them (phase 2: glue lemmas, Properties).  *3d: Tridimensional hypothesis, thorough tier only.
+    "C43NortonMisesLinear": dict(tag="bnml", tens=[], scal=["p"], proofs=["C43Proofs_bnml.v"], post=["Properties_C43_bnml.v"],
+                                 proofs3d=["C43Proofs_bnml_3d.v"], post3d=["Properties_C43_bnml_3d.v"]),
+    "C43PlasticMisesLinearPrager": dict(tag="bplp", tens=["khr_a_0"], scal=["p"], pre=["C43Defs_bplp.v"],
+                                        proofs=["C43Proofs_bplp_a.v", "C43Proofs_bplp_b.v"], post=["C43Proofs_bplp.v", "Properties_C43_bplp.v"],
+                                        pre3d=["C43Defs_bplp_3d.v"],
+                                        proofs3d=["C43Proofs_bplp_3d_a.v", "C43Proofs_bplp_3d_b.v", "C43Proofs_bplp_3d_c.v"],
+                                        post3d=["C43Proofs_bplp_3d.v", "Properties_C43_bplp_3d.v"]),
+    "C43NortonMisesVoce": dict(tag="bnmv", tens=[], scal=["p"], proofs=["C43Proofs_bnmv.v"], post=["Properties_C43_bnmv.v"],
+                               proofs3d=["C43Proofs_bnmv_3d.v"], post3d=["Properties_C43_bnmv_3d.v"]),
+    "C43PlasticMisesSwift": dict(tag="bpms", tens=[], scal=["p"], proofs=["C43Proofs_bpms.v"], post=["Properties_C43_bpms.v"],
+                                 proofs3d=["C43Proofs_bpms_3d.v"], post3d=["Properties_C43_bpms_3d.v"]),
+    "C43NortonMisesAF": dict(tag="bnaf", tens=["khr_a_0"], scal=["p"], pre=["C43Defs_bnaf.v"],
+                             proofs=["C43Proofs_bnaf_a.v", "C43Proofs_bnaf_b.v"], post=["C43Proofs_bnaf.v", "Properties_C43_bnaf.v"],
+                             pre3d=["C43Defs_bnaf_3d.v"],
+                             proofs3d=["C43Proofs_bnaf_3d_a.v", "C43Proofs_bnaf_3d_b.v", "C43Proofs_bnaf_3d_c.v"],
+                             post3d=["C43Proofs_bnaf_3d.v", "Properties_C43_bnaf_3d.v"]),
+    "C43NortonHill": dict(tag="bnhi", tens=[], scal=["p"], proofs=["C43Proofs_bnhi.v"], post=["Properties_C43_bnhi.v"],
+                          proofs3d=["C43Proofs_bnhi_3d.v"], post3d=["Properties_C43_bnhi_3d.v"]),
+    "C43Elasticity": dict(tag="bela", tens=[], scal=[], proofs=["C43Proofs_bela.v"], post=["Properties_C43_bela.v"],
+                          proofs3d=["C43Proofs_bela_3d.v"], post3d=["Properties_C43_bela_3d.v"]),
+    # execution only (asin/cos based criterion with a corner rounding: not traced)
+    "C43MohrCoulomb": dict(tag="bmc", tens=[], scal=["p"], proofs=[], hyps=("h3d", "h3d"), double_only=True,
+                           extra='#define BEH_MC_LODET 0.436332312998582\n', min_corner=(25, 60)),
 }
 SKIP_PARAMS = {"numerical_jacobian_epsilon", "minimal_time_step_scaling_factor", "maximal_time_step_scaling_factor", "iterMax"}
+HYP_FLAG = {"hag": "-DBRICK_HAG", "hpe": "-DBRICK_HPE", "h3d": "-DBRICK_H3D"}
 
 
 def main(c):
     from concurrent.futures import ThreadPoolExecutor
-    names = list(BRICKS) if not c.quick() else list(BRICKS)
+    names = list(BRICKS)
     gdir = os.path.join(c.work, "gen")
     gbeh.mfront_generate(c, [os.path.join(HERE, "mfront", n + ".mfront") for n in names], gdir)
+    c.log("mfront done")
     for n in names:
         if gbeh.mutate_generated(gdir, n):
             c.notes.append("TESTING AID ACTIVE: generated header of %s mutated via VERIF_GEN_MUTATION" % n)
     os.makedirs(os.path.join(c.work, "coq"), exist_ok=True)
-    hyps = c.pick("hag", "hag,hpe,h3d")
+
+    def hyps_of(n):
+        q, t = BRICKS[n].get("hyps", ("hag", "hag,hpe,h3d"))
+        return c.pick(q, t)
 
     def one(n):
-        tag, tens, scal, _ = BRICKS[n]
+        b = BRICKS[n]
+        tag = b["tag"]
         params = [p for p in gbeh.generated_parameters(gdir, n) if p not in SKIP_PARAMS]
         cfg = os.path.join(gdir, "cfg_%s.hxx" % n)
         with open(cfg, "w") as f:
             f.write('#define BEH %s\n#define BEH_HEADER "TFEL/Material/%s.hxx"\n#define BEH_TAG "%s"\n' % (n, n, tag))
             f.write("#define BEH_PARAMS %s\n" % " ".join("P(%s)" % p for p in params))
-            f.write("#define BEH_STENSORS %s\n" % " ".join("T(%s)" % p for p in tens))
-            f.write("#define BEH_SCALARS %s\n" % " ".join("S(%s)" % p for p in scal))
+            f.write("#define BEH_STENSORS %s\n" % " ".join("T(%s)" % p for p in b["tens"]))
+            f.write("#define BEH_SCALARS %s\n" % " ".join("S(%s)" % p for p in b["scal"]))
+            if b.get("double_only"):
+                f.write("#define BEH_DOUBLE_ONLY\n")
+            f.write(b.get("extra", ""))
+        hy = hyps_of(n)
         exe = c.cxx("trace_" + tag, [os.path.join(HERE, "trace_brick.cxx"), os.path.join(gdir, "src", n + ".cxx")],
                     gbeh.SUPPORT + ["src/Math/MathException.cxx"],
-                    flags=gbeh.include_flags(gdir) + ["-I" + gdir, '-DBRICK_CFG="cfg_%s.hxx"' % n])
+                    flags=gbeh.include_flags(gdir) + ["-I" + gdir, '-DBRICK_CFG="cfg_%s.hxx"' % n] + [HYP_FLAG[x] for x in hy.split(",")])
         out_v = os.path.join(c.work, "coq", "Gen%s.v" % tag)
-        rc, out, err = c.run([exe, "gen", out_v, str(c.seed % 1000003), str(c.pick(300, 3000)), hyps], timeout=900)
+        rc, out, err = c.run([exe, "gen", out_v, str(c.seed % 1000003), str(c.pick(300, 3000)), hy], timeout=900)
         return n, rc, out, err, out_v
 
     gen = {}
-    nag = nnj = 0
-    with ThreadPoolExecutor(max_workers=len(names)) as ex:
+    nag = nnj = ncorner = 0
+    with ThreadPoolExecutor(max_workers=4) as ex:
         results = list(ex.map(one, names))
+    c.log("tracers done")
     for n, rc, out, err, out_v in results:
-        tag = BRICKS[n][0]
+        b = BRICKS[n]
         if rc != 0:
             c.report("trace:" + n, "tracer of brick program %s failed (generated class no longer instantiates / runs with Sym): %s" % (n, err[-600:]),
                      {"stderr": err[-3000:], "program": n}, False)
@@ -64,33 +100,106 @@ def main(c):
             if t[0] == "NJ":
                 kv = dict(x.split("=") for x in t[3:])
                 nnj += int(kv["n"])
+                ncorner += int(kv.get("corner", 0))
                 c.count(int(kv["n"]), ("nj", n, t[2], kv["n"]), True)
                 if int(kv["n"]) == 0:
                     c.report("nj-none:%s:%s" % (n, t[2]), "no state of %s reached the reference (plastic loading) path" % n, {"line": l}, False)
+                if "min_corner" in b and int(kv.get("corner", 0)) < c.pick(*b["min_corner"]):
+                    c.report("nj-corner:%s:%s" % (n, t[2]), "the sampling of %s does not cover the rounded-corner zones |lode| > lodeT (%s states)" % (
+                        n, kv.get("corner")), {"line": l}, False)
             elif t[0] == "NJ-FAIL":
                 d = gbeh.parse_kv(" ".join(t[2:]))
                 key = "nj:%s:%s:%d,%d" % (n, t[2], int(d["i"][0]), int(d["j"][0]))
-                c.report(key, "brick program %s (%s): jacobian(%d,%d) = %.10g but centred differences of fzeros give %.10g at state in=%s z=%s" % (
-                    n, t[2], int(d["i"][0]), int(d["j"][0]), d["analytical"][0], d["numerical"][0], d["in"], d["z"]),
+                c.report(key, "brick program %s (%s): jacobian(%d,%d) = %.10g but centred differences of fzeros give %.10g at state in=%s z=%s (Lode angle %.4g deg)" % (
+                    n, t[2], int(d["i"][0]), int(d["j"][0]), d["analytical"][0], d["numerical"][0], d["in"], d["z"], d.get("lode", [0.0])[0]),
                     {"program": n, "hypothesis": t[2], "i": d["i"][0], "j": d["j"][0], "analytical": d["analytical"][0],
-                     "numerical": d["numerical"][0], "inputs": d["in"], "zeros": d["z"], "how": "props/C43/trace_brick.cxx (double instantiation)"}, True)
+                     "numerical": d["numerical"][0], "inputs": d["in"], "zeros": d["z"], "lode_angle_deg": d.get("lode", [0.0])[0],
+                     "how": "props/C43/trace_brick.cxx (double instantiation)"}, True)
             elif t[0] == "LAYOUT":
                 c.sample({"program": n, "hypothesis": t[2], "unknowns_and_inputs": " ".join(t[3:])[:400]})
+    proved = [n for n in names if BRICKS[n]["proofs"]]
+    proved3d = [n for n in names if BRICKS[n].get("proofs3d")] if not c.quick() else []
     c.coverage["programs"] = len(gen)
     c.coverage["disagreements_checked"] = nag + nnj
     c.coverage["traces_validated_against_impl"] = nag
-    c.coverage["rule"] = ("brick configurations %s x hypotheses %s; seeded plastic-loading and elastic states with the declared material coefficients; "
-                          "agreement Sym trace vs double computeFdF on each state's own path; analytical vs centred-difference jacobian on the states of "
-                          "the reference path; Coq: rows of the strain-partition residual of C43NortonMisesLinear (3-component tensors)" % (names, hyps))
+    c.coverage["corner_zone_states"] = ncorner
+    c.coverage["rule"] = ("brick configurations %s x hypotheses %s (Mohr-Coulomb: Tridimensional, double only, %d of its states in the rounded-corner zones); "
+                          "seeded plastic-loading and elastic states with the declared material coefficients; agreement Sym trace vs double computeFdF on each "
+                          "state's own path; analytical vs centred-difference jacobian on the states of the reference path; Coq: every jacobian entry of %s "
+                          "(3-component tensors)%s" % (names, c.pick("hag", "hag,hpe,h3d"), ncorner, proved,
+                                                      "" if c.quick() else " and of %s (Tridimensional)" % proved3d))
     c.trusted("mfront built from /repo's working tree and g++ template instantiation of the generated classes with symv::Sym",
               "engine S tracer (cxx/sym/sym.hxx incl. numeric_limits<Sym>::quiet_NaN for the unused bissection members), props/C41/gsym.hxx, props/C43/trace_brick.cxx",
-              "path condition bnml_cond_hag (plastic loading, regularisations max(seq, ..), max(seq-R, eps K) inactive) printed in the generated file")
-    if "C43NortonMisesLinear" not in gen:
+              "path conditions <tag>_cond_<h> (plastic loading, regularisations max(seq, ..), max(seq-R, eps K) inactive) printed in the generated files: the traced "
+              "definitions are the code's outputs on the states that satisfy them")
+    if any(n not in gen for n in proved):
         return
     a = os.path.abspath(os.path.join(C41, "coq"))
-    common = [os.path.join(a, "GBehLib.v"), os.path.join(a, "BehSpec.v"), gen["C43NortonMisesLinear"]]
-    r = gbeh.coq_parallel(c, common, ["C43Proofs_bnml.v"], ["Properties_C43.v"], timeout=1200)
-    if not r.ok:
+    r0 = c.coq([os.path.join(a, "GBehLib.v"), os.path.join(a, "BehSpec.v"), "C43Lib.v"], timeout=600)
+    if not r0.ok:
+        c.coq_failures(r0, None)
+        return
+    c.log("coq common done")
+    # generated modules and shared definitions first (fast), then the proof files, 4 at a time, then per configuration the
+    # glue lemmas and the Properties file (Print Assumptions is slow: also 4 at a time)
+    def pre(n):
+        return c.coq([gen[n]] + BRICKS[n].get("pre", []) + ([] if c.quick() else BRICKS[n].get("pre3d", [])), timeout=600)
+
+    with ThreadPoolExecutor(max_workers=4) as ex:
+        rgs = [r for r in ex.map(pre, proved) if not r.ok]
+    if rgs:
+        for r in rgs:
+            c.coq_failures(r, None)
+        return
+    c.log("coq generated modules done")
+    phase1 = []
+    for n in proved:
+        b = BRICKS[n]
+        phase1 += [(n, f, False) for f in b["proofs"]]
+        if not c.quick():
+            phase1 += [(n, f, True) for f in b.get("proofs3d", [])]
+    phase1.sort(key=lambda j: (0 if j[2] else 1, 0 if re.search(r"_[abc]\.v$", j[1]) else 1))
+
+    def prove(job):
+        t0 = time.time()
+        r = c.coq([job[1]], timeout=c.pick(600, 1500))
+        c.log("coq %s %s %.0fs" % (job[1], "ok" if r.ok else "FAILED", time.time() - t0))
+        return job, r
+
+    with ThreadPoolExecutor(max_workers=4) as ex:
+        rs = list(ex.map(prove, phase1))
+    failed = [r for (job, r) in rs if not r.ok]
+    badcfg = {(job[0], job[2]) for (job, r) in rs if not r.ok}
+    phase2 = []
+    for n in proved:
+        b = BRICKS[n]
+        for is3d, key in ((False, "post"), (True, "post3d")):
+            if is3d and c.quick():
+                continue
+            files = b.get(key, [])
+            if not files:
+                continue
+            if (n, is3d) in badcfg:
+                # the Properties file of this configuration cannot be compiled: its theorems are undischarged obligations
+                for f in files:
+                    if f.startswith("Properties"):
+                        txt = open(os.path.join(c.dir, "coq", f)).read()
+                        c.coverage["obligations"] += len(re.findall(r"^\s*(?:Theorem|Lemma|Corollary|Example)\s+", txt, flags=re.M))
+                continue
+            phase2.append(files)
+
+    def post(files):
+        t0 = time.time()
+        r = c.coq(files, timeout=900)
+        c.log("coq %s %s %.0fs" % (files[-1], "ok" if r.ok else "FAILED", time.time() - t0))
+        return r
+
+    with ThreadPoolExecutor(max_workers=4) as ex:
+        failed += [r for r in ex.map(post, phase2) if not r.ok]
+    if failed:
+        r = failed[0]
+        for b2 in failed[1:]:
+            r.failed += b2.failed
         if c.violations and any(v[3] for v in c.violations):
             c.notes.append("proof obligations failed: %s; concrete failing inputs reported above" % [f[2] or f[0] for f in r.failed])
         else:
